@@ -1618,37 +1618,78 @@ func ruleSelCollect(r *Run) {
 		r.bad("(*ruleSelector).getRules/descends", fn.Pos(), "getRules does not descend into the child selector: only top-level rules are ever found")
 		return
 	}
-	// every return includes the receiver's own rules; the recursive return also includes the child's result
+	// what a return carries: where the name is exhausted (name == "") the selectors that end at this node (exact) and
+	// not its wildcard rules (a wildcard stands for one or more further components); everywhere else the node's
+	// wildcard rules - and the child's result after the recursive call - and not its exact ones (an exact selector
+	// of a shorter name is not a prefix pattern)
+	exactF := p.StructField("ruleSelector", "exact")
+	ownExact := func(v ssa.Value) bool {
+		u, ok := v.(*ssa.UnOp)
+		if !ok || exactF == nil || !loadsField(u, exactF) {
+			return false
+		}
+		fa := u.X.(*ssa.FieldAddr)
+		return fa.X == ssa.Value(recv)
+	}
+	name := ssa.Value(fn.Params[1])
+	exhausted := func(b *ssa.BasicBlock) bool {
+		for _, g := range guardsOf(b) {
+			x, y, op, ok := g.cmp()
+			if !ok {
+				continue
+			}
+			if sv, isS := constString(y); isS && sv == "" && op == token.EQL && (x == name || p.sameValue(x, name)) {
+				return true
+			}
+			if lc, isC := x.(*ssa.Call); isC && calleeName(lc) == "builtin.len" && lc.Call.Args[0] == name {
+				if k, isK := constInt(y); isK && k == 0 && op == token.EQL {
+					return true
+				}
+			}
+		}
+		return false
+	}
 	good := true
 	nret := 0
 	var badPos token.Pos
+	why := ""
 	eachInstr(fn, func(in ssa.Instruction) {
 		rt, ok := in.(*ssa.Return)
 		if !ok {
 			return
 		}
 		nret++
-		hasOwn, hasRec := false, false
+		hasOwn, hasExact, hasRec := false, false, false
 		for _, el := range p.flattenAppend(rt.Results[0], 0) {
 			if ownRules(el) {
 				hasOwn = true
+			}
+			if ownExact(el) {
+				hasExact = true
 			}
 			if el == ssa.Value(rec) {
 				hasRec = true
 			}
 		}
-		if !hasOwn {
-			good = false
-			badPos = rt.Pos()
+		if exhausted(rt.Block()) {
+			if exactF == nil || !hasExact || hasOwn {
+				good, badPos = false, rt.Pos()
+				why = "where the name is exhausted getRules must return the selectors that end at this node and only those: returning the node's wildcard rules binds `pkg.Svc.M.*` to pkg.Svc.M itself, and keeping exact selectors in the same list as wildcards makes `pkg.Svc` act like `pkg.Svc.*`"
+			}
+			return
+		}
+		if !hasOwn || hasExact {
+			good, badPos = false, rt.Pos()
+			why = "a return of getRules for a name with further components does not carry the node's wildcard rules (or carries its exact selectors): a wildcard at a shallower depth stops covering the method, or an exact selector of a shorter name binds it"
 		}
 		// a return reachable after the recursive call must carry its result
 		if w, _ := (pathQuery{fn: fn, start: rec, target: func(x ssa.Instruction) bool { return x == in }}).find(); w != nil && !hasRec {
-			good = false
-			badPos = rt.Pos()
+			good, badPos = false, rt.Pos()
+			why = "a return after the recursive call drops the child's result"
 		}
 	})
-	r.check(good && nret > 0, "(*ruleSelector).getRules/collects-every-level", badPos, "every return carries the rules of the current node (and the recursive one those of the deeper nodes)",
-		"a return of getRules does not include the current node's own rules (or drops the child's result): a wildcard selector at a shallower depth stops covering a method as soon as a deeper selector exists")
+	r.check(good && nret > 0, "(*ruleSelector).getRules/collects-every-level", badPos, "returns carry the wildcard rules of every node passed and, where the name ends, the selectors that end there (exact) - nothing else",
+		why)
 	// the recursion descends into path[next component] with the remainder of the name
 	descOK := false
 	for _, o := range p.origins(rec.Call.Args[0], originOpts{}) {
@@ -1758,46 +1799,73 @@ func (p *Program) selCollectIterative(r *Run, fn *ssa.Function, rulesF, pathF *t
 		}
 		first = in
 	}
-	leaves := func(x ssa.Instruction) bool {
-		if isReturn(x) {
-			return true
+	exactF := p.StructField("ruleSelector", "exact")
+	isExactOfNode := func(v ssa.Value) bool {
+		u, ok := v.(*ssa.UnOp)
+		if !ok || exactF == nil || !loadsField(u, exactF) {
+			return false
 		}
-		// back at the head of the loop
-		return x.Block() == head && x == head.Instrs[0] && false
+		fa, ok := u.X.(*ssa.FieldAddr)
+		return ok && fa.X == ssa.Value(node)
 	}
-	w, _ := (pathQuery{fn: fn, start: first, target: leaves, barrier: isOwnAppend}).find()
+	exhausted := func(b *ssa.BasicBlock) bool {
+		for _, g := range guardsOf(b) {
+			x, y, op, ok := g.cmp()
+			if !ok || op != token.EQL {
+				continue
+			}
+			if sv, isS := constString(y); isS && sv == "" {
+				if bt, isB := x.Type().Underlying().(*types.Basic); isB && bt.Info()&types.IsString != 0 {
+					return true
+				}
+			}
+		}
+		return false
+	}
+	good, why := true, ""
+	nret := 0
+	eachInstr(fn, func(in ssa.Instruction) {
+		rt, ok := in.(*ssa.Return)
+		if !ok {
+			return
+		}
+		nret++
+		if exhausted(rt.Block()) {
+			hasExact := false
+			for _, el := range p.flattenAppend(rt.Results[0], 0) {
+				if isExactOfNode(el) {
+					hasExact = true
+				}
+			}
+			sameRound := false
+			for _, a := range instrsOf(fn, isOwnAppend) {
+				if w, _ := (pathQuery{fn: fn, start: a, target: func(x ssa.Instruction) bool { return x == in }, barrier: func(x ssa.Instruction) bool { return x == first }}).find(); w != nil {
+					sameRound = true
+				}
+			}
+			if !hasExact || sameRound {
+				good = false
+				why = "where the name is exhausted the loop must return the selectors that end at the current node (exact) without that node's wildcard rules"
+			}
+			return
+		}
+		if w, _ := (pathQuery{fn: fn, start: first, target: func(x ssa.Instruction) bool { return x == in }, barrier: isOwnAppend}).find(); w != nil {
+			good = false
+			why = "a round of getRules' loop returns without having appended the current node's wildcard rules"
+		}
+	})
 	// a way round the loop without the append
-	round := false
 	for _, pr := range head.Preds {
 		if !head.Dominates(pr) {
 			continue
 		}
 		last := pr.Instrs[len(pr.Instrs)-1]
 		if w2, _ := (pathQuery{fn: fn, start: first, target: func(x ssa.Instruction) bool { return x == last }, barrier: isOwnAppend}).find(); w2 != nil {
-			round = true
+			good = false
+			why = "a round of getRules' loop descends without having appended the current node's wildcard rules"
 		}
 	}
-	// the returned value is the accumulated list
-	accOK := true
-	eachInstr(fn, func(in ssa.Instruction) {
-		if rt, ok := in.(*ssa.Return); ok {
-			has := false
-			for _, o := range p.origins(rt.Results[0], originOpts{local: true, throughAppend: true}) {
-				if c, ok := o.(*ssa.Call); ok && isOwnAppend(c) {
-					has = true
-				}
-			}
-			for _, el := range p.flattenAppend(rt.Results[0], 0) {
-				if u, ok := el.(*ssa.UnOp); ok && loadsField(u, rulesF) {
-					has = true
-				}
-			}
-			if !has {
-				accOK = false
-			}
-		}
-	})
-	r.check(w == nil && !round && accOK, "(*ruleSelector).getRules/collects-every-level", node.Pos(), "every round appends the rules of the current node before it returns or descends, and the accumulated list is returned",
-		"a round of getRules' loop returns or descends without appending the current node's own rules (or the returned list is not the accumulated one): a wildcard selector at a shallower depth stops covering a method as soon as a deeper selector exists")
+	r.check(good && nret > 0, "(*ruleSelector).getRules/collects-every-level", node.Pos(), "every continuing round appends the wildcard rules of the current node; where the name ends the selectors ending there are returned (loop form)",
+		why+": a wildcard selector at a shallower depth stops covering a method, or exact and wildcard selectors are confused")
 	return true
 }
